@@ -5,7 +5,7 @@ import ast
 import os
 
 from ..context import Context
-from ..load import FUNC_KINDS, AnalysisError, ClassInfo, FuncInfo, Module, loc
+from ..load import FUNC_KINDS, AnalysisError, ClassInfo, FuncInfo, Module, chain, loc, norm, own_nodes
 
 PRIMITIVE_PAIRS = ["Lock", "ThreadLock", "Event", "Semaphore", "ShieldCancellation"]
 # async-only helpers that are not part of the contract the core code uses
@@ -406,3 +406,70 @@ def run(ctx: Context) -> None:  # noqa: F811
     ctx.rep.rule("C18.R10", "the thread Event and the async Event accept the same timeout domain and have the same outcome: the caller's timeout bounds the wait (None and inf both mean "
                             "no limit), an unsuccessful wait raises PoolTimeout, a successful one returns - decided on the values that reach threading.Event.wait / fail_after")
     backend.primitives(ctx, "C18.R10", ["AsyncEvent", "Event"])
+
+
+
+def backend_tag_census(ctx: Context, rule: str) -> None:
+    from .common import where
+    """Every string a value of `current_async_library()` is compared with is a tag that function can return.  The thread flavour has no such dispatch: a branch under a
+    tag that never occurs is a method that silently does nothing (or answers a constant) in the async flavour only."""
+    rep, prog = ctx.rep, ctx.prog
+    syn = prog.module("httpcore._synchronization")
+    cal = syn.functions.get("current_async_library")
+    if cal is None:
+        raise AnalysisError("anchor vanished: current_async_library in _synchronization.py")
+    tags: set[str] = set()
+    for n in own_nodes(cal.node):
+        if isinstance(n, ast.Compare) and len(n.ops) == 1 and isinstance(n.ops[0], (ast.NotIn, ast.In)) and isinstance(n.comparators[0], (ast.Tuple, ast.List, ast.Set)):
+            tags |= {e.value for e in n.comparators[0].elts if isinstance(e, ast.Constant) and isinstance(e.value, str)}
+    if not tags:
+        for n in own_nodes(cal.node):
+            if isinstance(n, ast.Compare) and len(n.ops) == 1 and isinstance(n.ops[0], ast.Eq) and isinstance(n.comparators[0], ast.Constant) and isinstance(n.comparators[0].value, str):
+                tags.add(n.comparators[0].value)
+    if not tags:
+        raise AnalysisError("cannot determine the tags current_async_library() returns")
+    nsites = 0
+    for m in prog.modules.values():
+        if not m.relpath.startswith("httpcore/") or "/_sync/" in m.relpath:
+            continue
+        for f in m.all_functions():
+            # carriers: locals bound from the call, and `self.<field>` of a class some method of which stores the call's result
+            carriers: set[str] = set()
+            scope = list(f.cls.methods.values()) if f.cls is not None else [f]
+            for g in scope:
+                for st in own_nodes(g.node):
+                    if isinstance(st, ast.Assign) and isinstance(st.value, ast.Call) and (chain(st.value.func) or [""])[-1] == "current_async_library":
+                        for t in st.targets:
+                            if isinstance(t, ast.Name) and g is f:
+                                carriers.add(t.id)
+                            elif isinstance(t, ast.Attribute):
+                                carriers.add(norm(t))
+            if not carriers:
+                continue
+            for c in own_nodes(f.node):
+                if not (isinstance(c, ast.Compare) and len(c.ops) == 1 and isinstance(c.ops[0], (ast.Eq, ast.NotEq, ast.In, ast.NotIn))):
+                    continue
+                sides = [c.left, c.comparators[0]]
+                car = [s for s in sides if norm(s) in carriers]
+                if not car:
+                    continue
+                other = sides[1] if car[0] is sides[0] else sides[0]
+                lits = [other] if isinstance(other, ast.Constant) else (list(other.elts) if isinstance(other, (ast.Tuple, ast.List, ast.Set)) else [])
+                for lit in lits:
+                    if isinstance(lit, ast.Constant) and isinstance(lit.value, str):
+                        nsites += 1
+                        ok = lit.value in tags or lit.value == ""
+                        rep.ob(rule, f"shared|{f.short}|tag:{lit.value}", ok, where(f, c),
+                               f"`{ast.unparse(c)}`: tag {lit.value!r} is one current_async_library() returns" if ok else
+                               f"`{ast.unparse(c)}` compares the running library with {lit.value!r}, which current_async_library() never returns ({sorted(tags)}): the branch is dead and the "
+                               "method falls through - under that library the async flavour silently does something else than the thread flavour")
+    rep.floor(rule, "comparisons of the running-library tag", nsites, 20)
+
+
+_core_run_r11 = run
+
+
+def run(ctx: Context) -> None:  # noqa: F811
+    _core_run_r11(ctx)
+    ctx.rep.rule("C18.R11", "every backend dispatch of the async primitives / AutoBackend tests a tag that current_async_library() can return: no async-only dead branch")
+    backend_tag_census(ctx, "C18.R11")
